@@ -59,6 +59,8 @@ structure LibSpec (c : Ctx W HS) : Prop where
   resume : ∃ s, c.host.glob nResume = some s ∧ ∀ a v w, c.host.call s [a, v] w = (.ok v, w)
   baseExc : ∃ b, c.host.glob "BaseException" = some b ∧ ∀ e, c.host.isinst e b = true
   nameErr : ∃ n, c.host.glob nNameError = some n
+  /-- Python's own `NameError`, under the name ptera's runtime library gives it -/
+  pyNameErr : c.scI nPyNameError = false ∧ ∃ n, c.host.glob nPyNameError = some n
   frame : ∃ f, c.host.glob nFrame = some f
   globals : ∃ g, c.host.glob nGlobals = some g
     ∧ (∀ x w, c.host.getitem g (.str x) w = (.ok ((c.host.glob x).getD .absent), w))
@@ -238,6 +240,7 @@ def LibSpec.pinned {c : Ctx W HS} (lib : LibSpec c) (x : String) (v : Val) : Lib
   resume := lib.resume
   baseExc := lib.baseExc
   nameErr := lib.nameErr
+  pyNameErr := lib.pyNameErr
   frame := lib.frame
   globals := lib.globals
   truthyBool := lib.truthyBool
